@@ -220,4 +220,11 @@ def conflictFreeB (progs : List (List Step)) : Bool :=
   (List.range progs.length).all fun i => (List.range progs.length).all fun j =>
     i == j || disjointB (writeCells (progs.getD j [])) (readCells (progs.getD i []))
 
+/-- the scratch cells (Field objects) a validation call goes through -/
+def Call.usesCell (c : Nat) : Call → Bool
+  | .homog cell _ _ _ => c == cell
+  | .set cell _ _ => c == cell
+  | .map kc vc _ _ => c == kc || c == vc
+  | .pos base _ n _ => decide (base ≤ c) && decide (c < base + n)
+
 end Typedpy.Sched
